@@ -72,6 +72,7 @@ def s_case(draw):
             "routes": draw(st.sampled_from(["distinct", "distinct", "none", "shared"])),              # (stream) the workers' route codes
             "lazy": draw(st.sampled_from([False, False, True])),       # make_tests yields the next sub-suite only once the earlier ones are done
             "failfast": draw(st.sampled_from([False, False, False, True])),   # (classic) the caller's result stops at the first failure
+            "tail": draw(st.one_of(st.none(), st.fixed_dictionaries({"seed": st.integers(0, 1 << 20), "p": st.sampled_from([2, 4, 8])}))),       # pre-emptions after the explicit schedule is used up
             "schedule": draw(st.lists(st.integers(0, 3), max_size=40))}
 
 
@@ -79,7 +80,7 @@ def execute(spec, schedule=None):
     import testtools
     from testtools import testsuite as ts
     vs = []
-    sched = S.Scheduler(spec["schedule"] if schedule is None else schedule)
+    sched = S.Scheduler(spec["schedule"] if schedule is None else schedule, tail=spec.get("tail") if schedule is None else None)
     stream = spec["suite"] == "stream"
     state = {"aborted": False, "threads": 0, "main_done": False, "run_exc": None, "calls": 0, "started": set()}
     worker_log = []        # (wid, what, ...)
